@@ -19,6 +19,7 @@
 #include <cmath>
 #include <algorithm>
 #include <complex>
+#include <limits>
 #include <numeric>
 
 namespace bpp
@@ -679,6 +680,23 @@ public:
     return std::log(x) + M;
   }
 
+private:
+  /**
+   * @return The largest v1[i] among the terms with a non-zero weight v2[i], that is the
+   * scale of @f$\sum_i(v2_i * \exp(v1_i))@f$, or -infinity if there is no such term.
+   */
+  template<class T>
+  static T maxWeighted_(const std::vector<T>& v1, const std::vector<T>& v2)
+  {
+    T M = -std::numeric_limits<T>::infinity();
+    for (size_t i = 0; i < v1.size(); i++)
+    {
+      if (v2[i] != 0 && v1[i] > M) M = v1[i];
+    }
+    return M;
+  }
+
+public:
   /**
    * @author Laurent Gueguen
    * @return From std::vector v1, return @f$\log(\sum_i(v2_i * \exp(v1_i)))@f$.
@@ -697,10 +715,17 @@ public:
     if (std::isinf(M))
       throw BadNumberException("VectorTools::logSumExp", M);
 
-    T x = v2[0] * std::exp(v1[0] - M);
-    for (size_t i = 1; i < size; i++)
+    // Terms with a zero weight do not contribute: they must not set the scale either
+    // (the contributing terms would underflow) nor enter the sum (0 * exp(large) is NaN).
+    M = maxWeighted_(v1, v2);
+    if (std::isinf(M))
+      return M; // log(0)
+
+    T x = 0;
+    for (size_t i = 0; i < size; i++)
     {
-      x += v2[i] * std::exp(v1[i] - M);
+      if (v2[i] != 0)
+        x += v2[i] * std::exp(v1[i] - M);
     }
     return std::log(x) + M;
   }
@@ -760,10 +785,16 @@ public:
     if (std::isinf(M))
       throw BadNumberException("VectorTools::sumExp", M);
 
-    T x = v2[0] * std::exp(v1[0] - M);
-    for (size_t i = 1; i < size; i++)
+    // Terms with a zero weight do not contribute: see logSumExp.
+    M = maxWeighted_(v1, v2);
+    if (std::isinf(M))
+      return 0;
+
+    T x = 0;
+    for (size_t i = 0; i < size; i++)
     {
-      x += v2[i] * std::exp(v1[i] - M);
+      if (v2[i] != 0)
+        x += v2[i] * std::exp(v1[i] - M);
     }
     return x * std::exp(M);
   }
